@@ -258,8 +258,9 @@ class Sim:
     type lives in the same process and loop (the bystander): whatever happens to the first one, the bystander must
     stay connected on its own link and receive exactly what its gateway sends."""
 
-    def __init__(self, loop: vloop.VirtualLoop, kind: str, client_kwargs=None, status_cb="ok", recv_cb="ok", bystander=False):
+    def __init__(self, loop: vloop.VirtualLoop, kind: str, client_kwargs=None, status_cb="ok", recv_cb="ok", bystander=False, cb_style="method"):
         from collections import Counter
+        self.cb_style = cb_style
         self.with_bystander = bystander
         self.by_client = None
         self.by_conns: list = []
@@ -304,8 +305,8 @@ class Sim:
         else:
             c = WaveShareNmea2000Gateway("/dev/sim-serial", **kw)
         self.client = c
-        c.set_receive_callback(self._on_receive)
-        c.set_status_callback(self._on_status)
+        c.set_receive_callback(self._styled(self._on_receive))
+        c.set_status_callback(self._styled(self._on_status))
         if self.with_bystander:
             if self.kind == "ebyte":
                 b = EByteNmea2000Gateway("sim-gateway-2", 8882)
@@ -327,6 +328,24 @@ class Sim:
         self.loop.step_observers.append(self._sample_state)
         self._sample_state(self.loop)
         return c
+
+    def _styled(self, fn):
+        """The same async callback in the shapes an application may legally hand over: a bound coroutine method, an
+        object with an async __call__, a plain function returning the coroutine, a functools.partial."""
+        if self.cb_style == "object":
+            class _Callable:
+                def __init__(self, f):
+                    self.f = f
+
+                async def __call__(self, x):
+                    return await self.f(x)
+            return _Callable(fn)
+        if self.cb_style == "lambda":
+            return lambda x: fn(x)
+        if self.cb_style == "partial":
+            import functools
+            return functools.partial(fn)
+        return fn
 
     def _sample_state(self, _loop):
         st = self.client.state
@@ -503,13 +522,13 @@ def judge_bystander(sim, acc, w):
                       f"state {b['state']}, {b['connections']} connection(s), link open: {b['link_open']}", dict(w, bystander=b))
 
 
-def run_session(kind, scenario, client_kwargs=None, status_cb="ok", recv_cb="ok", max_steps=100_000, bystander=False):
+def run_session(kind, scenario, client_kwargs=None, status_cb="ok", recv_cb="ok", max_steps=100_000, bystander=False, cb_style="method"):
     """scenario: async def scenario(sim) run inside the virtual loop with the factories patched.
     Returns (sim, stats)."""
     box = {}
 
     async def main(loop):
-        sim = Sim(loop, kind, client_kwargs, status_cb, recv_cb, bystander)
+        sim = Sim(loop, kind, client_kwargs, status_cb, recv_cb, bystander, cb_style)
         box["sim"] = sim
         with sim.patched():
             sim.make_client()
